@@ -118,6 +118,21 @@ def nan_replaced(prog, fi):
                     blank_test(x.args[0]) and (number(x.args[1]) or
                                                number(x.args[2])):
                 out.append((x, "where(blank, number, ...)"))
+            if d.split(".")[-1] == "filled":
+                # masked entries (how the VOTable / FITS readers hand back
+                # NaN cells) replaced by a fill value: the default is 1e20
+                # for floats, 999999 for integers
+                fv = (x.args[0] if isinstance(x.func, ast.Attribute) and
+                      x.args else x.args[1] if len(x.args) > 1 else None)
+                for k in x.keywords:
+                    if k.arg == "fill_value":
+                        fv = k.value
+                isnan = fv is not None and norm(fv).split(".")[-1] in (
+                    "nan", "NaN", "NAN")
+                if not isnan:
+                    out.append((x, "masked entries filled with %s" %
+                                ("the default fill value (1e20)"
+                                 if fv is None else norm(fv))))
         if isinstance(x, ast.Assign) and \
                 isinstance(x.targets[0], ast.Subscript) and \
                 number(x.value) and blank_test(x.targets[0].slice):
